@@ -5,6 +5,7 @@ package cluster
 
 import (
 	"bytes"
+	"errors"
 	"fmt"
 	"runtime"
 	"sync"
@@ -31,7 +32,24 @@ type restStore struct {
 	raft.LogStore
 	mu  sync.Mutex
 	mut map[uint64]func(*raft.Log)
+	// failStores > 0: the next StoreLogs calls fail without storing anything
+	failStores int
 }
+
+var errInjectedStore = errors.New("injected store failure")
+
+func (r *restStore) StoreLogs(logs []*raft.Log) error {
+	r.mu.Lock()
+	if r.failStores > 0 {
+		r.failStores--
+		r.mu.Unlock()
+		return errInjectedStore
+	}
+	r.mu.Unlock()
+	return r.LogStore.StoreLogs(logs)
+}
+
+func (r *restStore) StoreLog(l *raft.Log) error { return r.StoreLogs([]*raft.Log{l}) }
 
 func (r *restStore) GetLog(i uint64, l *raft.Log) error {
 	err := r.LogStore.GetLog(i, l)
@@ -71,6 +89,7 @@ type Node struct {
 	// per middleware instance (reset by Restart): what the counters should say
 	CPStored, Delivered, MismatchWritten, MismatchRead uint64
 	CounterFail                                        string
+	Retried                                            int
 }
 
 func newInner(kind string, seg int) (raft.LogStore, func(), error) {
@@ -190,6 +209,11 @@ func (n *Node) TakeReports() []verifier.VerificationReport {
 // Store sends a batch to the node through the middleware and records ground truth.
 func (n *Node) Store(logs []*raft.Log) error {
 	err := n.V.StoreLogs(logs)
+	if errors.Is(err, errInjectedStore) {
+		// raft retries the same entries after a store error
+		n.Retried++
+		err = n.V.StoreLogs(logs)
+	}
 	if err == nil {
 		for _, l := range logs {
 			if ok, _ := isCheckpoint(l); ok {
